@@ -158,3 +158,76 @@ def _aio_tweak(rng_, s):
 aiomix.install(globals(), 0.25, lambda rng: aiomix.stream(rng, _c17.scenarios, tweak=_aio_tweak), aiomix.c10_specs,
                aio_runner=aiomix.c10_runner,
                note="C17-style job lives with raising runs (20%), each also run fault-free; Spec: no supervising task dies, failed_attempts = raising runs, attempts = completed runs, one ERROR record per failure, the two runs agree on everything else")
+
+
+# ---- several workers (threading, controlled interleavings): a failing callback "never prevents the other jobs selected in the same
+# ---- call from running" also when two callbacks fail at the same time, the handler renders the records and the jobs carry their scheduler
+from . import c14 as _c14  # noqa: E402
+
+_prev = {k: globals().get(k) for k in ("scenarios", "runner", "specs", "classes", "nontrivial", "project", "direct_specs")}
+
+
+def _conc_scenario(rng):
+    scn = _c14.gen_scenario(rng, {"p_exec_heavy": 1.0, "p_batched": 0.0, "p_pause": 0.3})
+    for j in scn["jobs"]:
+        j["raises"] = rng.random() < 0.7
+        j["pass_sched"] = rng.random() < 0.7
+    scn["n_threads"] = rng.choice([2, 0, 3])
+    scn["kind"] = "conc"
+    return scn
+
+
+def scenarios(rng, n, tier):  # noqa: F811
+    for scn in _prev["scenarios"](rng, n, tier):
+        yield _conc_scenario(rng) if rng.random() < 0.06 else scn
+
+
+def runner(scn):  # noqa: F811
+    return _c14.runner(scn) if scn.get("kind") == "conc" else _prev["runner"](scn)
+
+
+def specs(r):  # noqa: F811
+    if r["scn"].get("kind") != "conc":
+        return _prev["specs"](r)
+    out, scn = r["obs"][0], r["scn"]
+    if out.get("uncontrollable"):
+        return []
+    if out.get("deadlock") or out.get("error"):
+        return [("spec eq 0 1", {"what": "several workers: a failing callback blocked the call (deadlock) or a thread died", "detail": out.get("deadlock") or out.get("error")})]
+    qs = []
+    for x in out["records"]:
+        if x["op"] == "exec" and x["result"][0] != "c":
+            qs.append(("spec eq 0 1", {"what": "several workers: exec_jobs raised", "error": list(x["result"])}))
+    nraise = sum(1 for (k, _e, _t) in out["invocations"] if k < len(scn["jobs"]) and scn["jobs"][k].get("raises"))
+    qs.append((f"spec eq {out.get('logs', 0)} {nraise}", {"what": "several workers: one ERROR record per raising invocation", "records": out.get("logs"), "raising": nraise}))
+    ninv = {}
+    for (k, _e, _t) in out["invocations"]:
+        ninv[k] = ninv.get(k, 0) + 1
+    for k, v in (out.get("jobs") or {}).items():
+        k = int(k)
+        if k < len(scn["jobs"]):
+            qs.append((f"spec eq {v[0]} {ninv.get(k, 0)}", {"what": "several workers: attempts = invocations", "key": k}))
+            qs.append((f"spec eq {v[1]} {ninv.get(k, 0) if scn['jobs'][k].get('raises') else 0}", {"what": "several workers: failed_attempts = raising invocations", "key": k}))
+    return qs
+
+
+def classes(r):  # noqa: F811
+    return ["kind:several-workers"] if r["scn"].get("kind") == "conc" else _prev["classes"](r)
+
+
+def nontrivial(r):  # noqa: F811
+    if r["scn"].get("kind") == "conc":
+        return len(r["obs"][0].get("invocations", [])) > 0
+    return _prev["nontrivial"](r)
+
+
+if _prev["project"] is not None:
+    def project(line):  # noqa: F811
+        return _prev["project"](line)
+
+if _prev["direct_specs"] is not None:
+    def direct_specs(r):  # noqa: F811
+        return [] if r["scn"].get("kind") == "conc" else _prev["direct_specs"](r)
+
+RULE += ("; 6% of the scenarios are overlapping exec_jobs callers with 2, 3 or unlimited workers under controlled interleavings, most callbacks "
+         "raising, jobs carrying their scheduler as an argument, the handler rendering every record: no deadlock, one record per failure, counters exact")
